@@ -27,11 +27,12 @@ pub fn projected(name: &str, targets: usize) -> Vec<Ev> {
         "navigation" => vec!["next_hop", "previous_hop", "next_trace", "previous_trace", "next_hop_address", "previous_hop_address", "toggle_flows", "toggle_freeze", "toggle_hop_details", "clear_trace_data", "clear_selection"],
         "settings" => vec!["toggle_settings", "toggle_settings_columns", "toggle_settings_theme", "next_trace", "previous_trace", "next_hop", "previous_hop", "toggle_chart", "next_hop_address", "previous_hop_address", "toggle_help"],
         "flows" => vec!["toggle_flows", "next_trace", "previous_trace", "next_hop", "clear_trace_data"],
+        "details" => vec!["next_hop", "next_hop_address", "toggle_hop_details", "toggle_freeze", "clear_trace_data"],
         "modes" => vec!["expand_privacy", "contract_privacy", "expand_hosts", "contract_hosts", "expand_hosts_max", "contract_hosts_min", "address_mode_ip", "address_mode_both", "toggle_as_info", "toggle_map", "toggle_chart", "next_hop", "chart_zoom_in", "chart_zoom_out"],
         other => panic!("MACHINERY: projection {other}"),
     };
     let mut v: Vec<Ev> = keys.into_iter().map(Ev::Key).collect();
-    let traces: &[TraceEv] = if name == "settings" { &[TraceEv::Path3] } else if name == "flows" { &[TraceEv::Path3, TraceEv::Branch, TraceEv::Path5] } else { &[TraceEv::Path3, TraceEv::Path2, TraceEv::Branch, TraceEv::Silent, TraceEv::SilentKnown, TraceEv::Error] };
+    let traces: &[TraceEv] = if name == "settings" { &[TraceEv::Path3] } else if name == "flows" { &[TraceEv::Path3, TraceEv::Branch, TraceEv::Path5] } else if name == "details" { &[TraceEv::Path3, TraceEv::Branch] } else { &[TraceEv::Path3, TraceEv::Path2, TraceEv::Branch, TraceEv::Silent, TraceEv::SilentKnown, TraceEv::Error] };
     for t in traces {
         for i in 0..targets {
             v.push(Ev::Trace(*t, i));
@@ -205,6 +206,21 @@ pub fn run(args: &Args) -> i32 {
         eprintln!("C17 progress: flows/{name} done at {:.1}s ({} states, depth {})", start.elapsed().as_secs_f64(), r.states, r.max_depth);
         phases.push(json!({"phase": "projected:flows", "config": name, "alphabet": al.len(), "depth_bound": depth, "states": r.states, "transitions": r.transitions, "fixpoint_reached": r.fixpoint, "max_depth": r.max_depth, "failures": r.fails.len()}));
     }
+    // (ii-a2) hop details x freeze x clear: a small alphabet searched deep (towards its fixpoint):
+    // what is selected in a frozen picture must still exist when the display thaws
+    {
+        let al = projected("details", base.targets);
+        let depth = if tier == Tier::Thorough { 16 } else { 12 };
+        let r = explore::bfs(&base, &al, &[], depth, if tier == Tier::Thorough { 200_000 } else { 20_000 }, &no_check);
+        states += r.states;
+        transitions += r.transitions;
+        max_depth = max_depth.max(r.max_depth);
+        for (h, f) in &r.fails {
+            record(&mut findings, "C17", &base, h, f, None);
+        }
+        eprintln!("C17 progress: details done at {:.1}s ({} states, depth {}, fixpoint {})", start.elapsed().as_secs_f64(), r.states, r.max_depth, r.fixpoint);
+        phases.push(json!({"phase": "projected:details", "config": "single-target", "alphabet": al.len(), "depth_bound": depth, "states": r.states, "transitions": r.transitions, "fixpoint_reached": r.fixpoint, "max_depth": r.max_depth, "failures": r.fails.len()}));
+    }
     // (ii-b) the settings dialog in depth: first the navigation fixpoint (every tab, every row),
     // then from EVERY navigation state all sequences of <= k events of the dialog's whole alphabet
     // (column toggle / move up / move down, navigation, leaving and re-entering the dialog) - so
@@ -286,7 +302,7 @@ pub fn run(args: &Args) -> i32 {
     rep.set("redraws_at_other_sizes", json!(redraws));
     rep.set("terminal_sizes", json!(sizes.len()));
     rep.set("phases", json!(phases));
-    rep.set("rule", json!("state = history of events replayed on a fresh real TuiApp (+ real un-started Tracers fed by verif_apply_round) drawn with the real render on a TestBackend; events = every binding of run_app's dispatch chain under the same mode gating (46 commands; table checked against the source at start-up) + 8 trace updates per target (3-hop path, shorter path, other ECMP branch, nothing answers, nothing answers with the target distance carried over from an earlier round, failed probes, 5-hop path with unknown hop, fatal error); each step does what one turn of run_app does (snapshot/clamp/order unless frozen, draw). Level-synchronous BFS de-duplicated on a canonical key (UI fields verbatim, trace state by shape); full alphabet to the depth bound per configuration, projected alphabets towards a fixpoint (navigation, settings, modes; flows: three distinct paths against flow caps 1, 2, 3); settings dialog: navigation fixpoint (every tab, every row), then every sequence of <= 2 (quick; 1 on the column-set variants; 3 thorough) dialog events from every navigation state; every picked reached state re-drawn at the listed terminal sizes. Oracle: no panic in any command, loop-top or draw; selected hop/address/flow/trace/settings tab refer to existing entries before every draw"));
+    rep.set("rule", json!("state = history of events replayed on a fresh real TuiApp (+ real un-started Tracers fed by verif_apply_round) drawn with the real render on a TestBackend; events = every binding of run_app's dispatch chain under the same mode gating (46 commands; table checked against the source at start-up) + 8 trace updates per target (3-hop path, shorter path, other ECMP branch, nothing answers, nothing answers with the target distance carried over from an earlier round, failed probes, 5-hop path with unknown hop, fatal error); each step does what one turn of run_app does (snapshot/clamp/order unless frozen, draw). Level-synchronous BFS de-duplicated on a canonical key (UI fields verbatim, trace state by shape); full alphabet to the depth bound per configuration, projected alphabets towards a fixpoint (navigation, settings, modes; details x freeze x clear to depth 12 / 16; flows: three distinct paths against flow caps 1, 2, 3); settings dialog: navigation fixpoint (every tab, every row), then every sequence of <= 2 (quick; 1 on the column-set variants; 3 thorough) dialog events from every navigation state; every picked reached state re-drawn at the listed terminal sizes. Oracle: no panic in any command, loop-top or draw; selected hop/address/flow/trace/settings tab refer to existing entries before every draw"));
     rep.sample(json!({"config": "single-target", "history": ["trace0:Branch", "key:toggle_flows", "key:clear_trace_data"]}));
     rep.assumptions = vec!["command table replicates run_app's dispatch (self-checked against the source text)".into(), "clock pinned; DNS cache pre-seeded (flush re-seeds at once); GeoIP from a generated fixture".into(), "counters/latencies are not part of the canonical key (DESIGN.md 3/C17)".into()];
     rep.finish()
